@@ -258,7 +258,7 @@ impl ArbiterRunner {
 
 #[verifier::exec_allows_no_decreases_clause]
 #[verifier::loop_isolation(false)]
-//@extract file=actix-rt/src/arbiter.rs item="impl Future for ArbiterRunner / fn poll" ret=r props=C10,C09 name=arbiter::runner_poll
+//@extract file=actix-rt/src/arbiter.rs item="impl Future for ArbiterRunner / fn poll" ret=r props=C10,C09 name=arbiter::runner_poll trace_calls="::spawn_local"
 //@spec
     requires
         old(self).alive(),
@@ -272,6 +272,12 @@ impl ArbiterRunner {
         r is Pending ==> final(self).alive(),
         // the Future contract: Pending is returned only with a wake-up arranged — the channel has the waker   [C09,C10]
         r is Pending ==> final(self).rx.parked(),   // [C09,C10]
+//@insert after="ArbiterCommand::Execute(task_fut) => {"
+                        let ghost t0 = r24_trace.len();
+//@insert arm_end="ArbiterCommand::Execute(task_fut) =>"
+                        // a received task is started, exactly once, before the next command is looked at (FIFO; "at most
+                        // once" is ownership, "at least once" is this obligation)   [C10]
+                        assert(r24_trace.len() == t0 + 1);   // [C10]
 //@loop 1
         invariant
             self.alive(),
